@@ -244,6 +244,10 @@ func cmdCheck(args []string) {
 		if v, ok := params["_unwind"]; ok {
 			cfg.Unwind = v
 		}
+		cfg.Budget = 600 * time.Second
+		if *tier == "thorough" {
+			cfg.Budget = 3600 * time.Second
+		}
 		if v, ok := params["_budget_s"]; ok {
 			cfg.Budget = time.Duration(v) * time.Second
 		}
